@@ -328,3 +328,39 @@ func H16_oversized_packet() {
 	vrtAssert("C16.clean_sessions_discarded", b.svr.sessMgr.Count() == 0)
 	vrtReach("C16.oversized_packet")
 }
+
+// H16_disconnect_stalled_half_closed: a subscriber has stopped reading, its outgoing ring is full and a
+// publisher is blocked in the delivery to it; now it sends DISCONNECT (or nothing) and shuts down its
+// sending side - it never reads again and it does not reset the connection. The broker still ends that
+// connection: closed, goroutines gone, clean session discarded, subscription gone - and the publisher
+// that was held up gets on (its PINGREQ is answered) (round-9 change C16-18: the teardown first waited
+// for the outgoing ring to drain, "so that the last acknowledgement reaches the peer").
+func H16_disconnect_stalled_half_closed() {
+	b := vrtBroker("mockSuccess")
+	base := vrtLiveGoroutines()
+	s, _ := b.connect(vrtConnectPkt([]byte("s"), true))
+	vrtExchange(s, &specPkt{Typ: specSUBSCRIBE, ID: 1, Topics: [][]byte{[]byte("to/s")}, QoS: []byte{0}})
+	s.peerTake()
+	p, _ := b.connect(vrtConnectPkt([]byte("p"), true))
+	s.peerStall(100)
+	for i := 0; i < 3; i++ {
+		p.peerSend(specEncode(vrtBigPublish("to/s", byte(i))))
+	}
+	vrtQuiesce()
+	if vrtBool("sends_disconnect") {
+		s.peerSend(specEncode(&specPkt{Typ: specDISCONNECT}))
+	}
+	s.peerHalfClose()
+	vrtQuiesce()
+	vrtAssert("C16.connections_closed", s.isClosed())
+	pong := vrtExchange(p, &specPkt{Typ: specPINGREQ})
+	vrtAssert("C16.held_up_publisher_gets_on", vrtBytesEq(pong, []byte{0xd0, 0}))
+	var subs []interface{}
+	var qoss []byte
+	b.svr.topicsMgr.Subscribers([]byte("to/s"), 0, &subs, &qoss)
+	vrtAssert("C16.subscriptions_removed", len(subs) == 0)
+	vrtEnd(p, 0)
+	vrtAssert("C16.no_goroutine_of_an_ended_connection_remains", vrtLiveGoroutines() == base)
+	vrtAssert("C16.clean_sessions_discarded", b.svr.sessMgr.Count() == 0)
+	vrtReach("C16.disconnect_stalled_half_closed")
+}
